@@ -112,7 +112,7 @@ PROPS = {
         "technique": 'Lean 4 proof (inversion of the loop refinement) + differential correspondence with replies to other commands at every script position',
         "ref": '§5 C11',
         "proofs": ['Bmc.Proofs.C11', "Bmc.Proofs.C11.Match"],
-        "scenarios": ['send', 'slsend', 'api', 'udp'],
+        "scenarios": ['send', 'slsend', 'api', 'udp:sendu,slsendu,sendb,slsendb'],
         "rule": 'send: exhaustive reply scripts over the 21-letter alphabet {final, error code, busy C0, timeout C3, reply to another command (any completion code, near-miss command numbers, other group body / OEM enterprise), authenticated-flagged forgery without any trailer, authentic response cut at the payload end, AuthCode cut short or extended, unauthenticated forgery with foreign/own session ID, authentic but foreign session, flipped AuthCode, wrong key, flipped ciphertext, bad confidentiality pad, authentic unencrypted, garbage, non-message packet, runt message, 7-byte response, lost} to depth 3 (thorough: depth 3 exhaustively + a quarter of depth 4) on suite 3 and one level less on four more suites, random operation (incl. group/OEM NetFns), LUN and request body of 0..39 bytes per script, every request length 0..63, counters at 0/1/2^31-1/2^32-3, unserialisable requests. Non-trivial = script with a non-final outcome before its end; distinct = distinct op line. slsend: exhaustive scripts over 11 letters to depth 3 (thorough 4).'
           " api: every high-level call x {3 suites in session, session-less}: type-directed arguments (0, max, walking bits, out-of-width, random) x reply scripts {conforming body in every optional-tail form, non-zero code with / without body, temporary code then final, reply to another command first, lost, empty / truncated at every length / extended / random body} + all ordered pairs of calls on ONE connection with the second reply shorter than the first; class P = conforming scripts; model-independent verdict: result = fresh decode by the real decoder of the first acceptable final response (error unless code 00h), every transmitted datagram opens under the reference BMC / parser to the specification's command with the caller's arguments.",
         "modelled": ["in-session and session-less retry loops, layer (re)initialisation, LayersDecoder chain, sequence counter: hand models tied by byte-exact correspondence"],
@@ -124,7 +124,7 @@ PROPS = {
         "technique": 'Lean 4 proof (inversion lemmas over the decode chain; reduction to the MAC equation) + differential correspondence over a forged-reply catalogue',
         "ref": '§5 C04',
         "proofs": ['Bmc.Proofs.C04'],
-        "scenarios": ['send', 'dec:v2none,v2sha1,v2md5,v2sha256,aes', 'udp'],
+        "scenarios": ['send', 'dec:v2none,v2sha1,v2md5,v2sha256,aes', 'udp:sendu,sendb'],
         "rule": 'send: exhaustive reply scripts over the 21-letter alphabet {final, error code, busy C0, timeout C3, reply to another command (any completion code, near-miss command numbers, other group body / OEM enterprise), authenticated-flagged forgery without any trailer, authentic response cut at the payload end, AuthCode cut short or extended, unauthenticated forgery with foreign/own session ID, authentic but foreign session, flipped AuthCode, wrong key, flipped ciphertext, bad confidentiality pad, authentic unencrypted, garbage, non-message packet, runt message, 7-byte response, lost} to depth 3 (thorough: depth 3 exhaustively + a quarter of depth 4) on suite 3 and one level less on four more suites, random operation (incl. group/OEM NetFns), LUN and request body of 0..39 bytes per script, every request length 0..63, counters at 0/1/2^31-1/2^32-3, unserialisable requests. Non-trivial = script with a non-final outcome before its end; distinct = distinct op line.',
         "modelled": ["in-session and session-less retry loops, layer (re)initialisation, LayersDecoder chain, sequence counter: hand models tied by byte-exact correspondence"],
         "assumptions": ["a Send that fails before anything leaves the socket is outside the outcome alphabet (it still consumes a number, which is the safe choice)"],
@@ -135,7 +135,7 @@ PROPS = {
         "technique": 'Lean 4 proof (byte shape of the sealed datagram, AES/message round trips, per-datagram IV draw) + byte-exact differential correspondence + BMC-side open() of every logged datagram',
         "ref": '§5 C03',
         "proofs": ['Bmc.Proofs.C03'],
-        "scenarios": ['send', 'udp'],
+        "scenarios": ['send', 'udp:sendu,sendb'],
         "rule": 'send: exhaustive reply scripts over the 21-letter alphabet {final, error code, busy C0, timeout C3, reply to another command (any completion code, near-miss command numbers, other group body / OEM enterprise), authenticated-flagged forgery without any trailer, authentic response cut at the payload end, AuthCode cut short or extended, unauthenticated forgery with foreign/own session ID, authentic but foreign session, flipped AuthCode, wrong key, flipped ciphertext, bad confidentiality pad, authentic unencrypted, garbage, non-message packet, runt message, 7-byte response, lost} to depth 3 (thorough: depth 3 exhaustively + a quarter of depth 4) on suite 3 and one level less on four more suites, random operation (incl. group/OEM NetFns), LUN and request body of 0..39 bytes per script, every request length 0..63, counters at 0/1/2^31-1/2^32-3, unserialisable requests. Non-trivial = script with a non-final outcome before its end; distinct = distinct op line.',
         "modelled": ["in-session and session-less retry loops, layer (re)initialisation, LayersDecoder chain, sequence counter: hand models tied by byte-exact correspondence"],
         "assumptions": ["a Send that fails before anything leaves the socket is outside the outcome alphabet (it still consumes a number, which is the safe choice)"],
@@ -160,7 +160,7 @@ PROPS = {
               'verdicts',
  'ref': '§5 C01',
  'proofs': ['Bmc.Proofs.C01'],
- 'scenarios': ['hs', 'send', 'bmcspec', 'udp'],
+ 'scenarios': ['hs', 'send', 'bmcspec', 'udp:hsu,sendu,sendb'],
  'rule': 'hs: 9 suites x 6 (thorough 60) credential sets (user 0..16 bytes, password 0..20, KG absent/20 bytes, both lookup modes, privilege 0..5) as honest '
          'transcripts of the reference BMC; other BMC password / KG; per authentication algorithm every status in a sample (thorough: all 1..255), other tags, '
          'every 3rd (thorough: every) single-bit flip and every truncation length (consistent and inconsistent wrapper length) and 1-3 byte extensions of each '
@@ -177,7 +177,7 @@ PROPS = {
         "technique": 'Lean 4 proof (soundness by inversion: ok => transcript authentic) + differential correspondence over mutated transcripts',
         "ref": '§5 C02',
         "proofs": ['Bmc.Proofs.C02'],
-        "scenarios": ['hs', 'udp'],
+        "scenarios": ['hs', 'udp:hsu'],
         "rule": 'hs: 9 suites x 6 (thorough 60) credential sets (user 0..16 bytes, password 0..20, KG absent/20 bytes, both lookup modes, privilege 0..5) as honest transcripts of the reference BMC; other BMC password / KG; per authentication algorithm every status in a sample (thorough: all 1..255), other tags, every 3rd (thorough: every) single-bit flip and every truncation length (consistent and inconsistent wrapper length) and 1-3 byte extensions of each of the three replies; lost / garbage / duplicated replies inside each exchange; every algorithm triple 0..4 x 0..5 x 0..3 the BMC may confirm; proposals of None/unknown algorithms; user names of 17..20 bytes. suite: every ordered preference list of length 0..3 (thorough 0..4) over a 5-suite universe x every advertised subset (rotated order) and failing discovery. Non-trivial = every op (each runs a full or failing handshake); distinct = distinct op line.',
         "modelled": ["newV2Session, openSession/rakpMessage1/rakpMessage3, buildAndSendPayload, the calculate* functions, algorithm constructors and determineCipherSuite are hand models tied by correspondence"],
         "assumptions": ["the multi-suite path's discovery (RetrieveSupportedCipherSuites) is abstracted to its result in `determine`; its own correctness is C16"],
